@@ -47,3 +47,11 @@ CASES = [
     t("start written as sum in other order", T,
       "            start = frequencies[0] + self.frequency_start\n\n            nosteps", "            start = self.frequency_start + frequencies[0]\n\n            nosteps"),
 ]
+
+
+CASES += [
+    {"name": "frequency step read before entering internal units", "kind": "mutant", "rule": 'C13-D', "edits": [
+        ('quantarhei/core/frequency.py', '        with energy_units("int"):\n\n            if self.atype == \'complete\':\n\n                times = numpy.fft.fftshift(\n                    numpy.fft.fftfreq(self.length, self.step/(2.0*numpy.pi)))\n', '        dw = self.step\n        with energy_units("int"):\n\n            if self.atype == \'complete\':\n\n                times = numpy.fft.fftshift(\n                    numpy.fft.fftfreq(self.length, dw/(2.0*numpy.pi)))\n', 1)]},
+    {"name": "central frequency hoisted behind the branches but kept under internal units", "kind": "twin", "edits": [
+        ('quantarhei/core/frequency.py', '                frequency_start = self.data[self.length//2]\n\n            else:\n                raise Exception("Unknown frequency axis type")\n', '\n            else:\n                raise Exception("Unknown frequency axis type")\n\n            frequency_start = self.data[self.length//2]\n', 1), ('quantarhei/core/frequency.py', '                frequency_start = self.data[self.length//2]\n\n\n            elif', '\n\n            elif', 1)]},
+]
